@@ -52,6 +52,7 @@ def run(ck):
     ck.cov["exhaustive"] = False
     if not ok:
         return
+    traces = [dbgen.with_lag(ck.rng, t, 0.15) if len(t) > 8 else t for t in traces]
     dbprops.run_db_property(ck, eng, traces, [dbprops.mon_c13], with_replicas=True, nontrivial=nontrivial)
     ck.sample({"trace": dbengine.trace_to_json(traces[700][:8])})
     ck.sample({"trace": dbengine.trace_to_json(traces[-50][:8])})
